@@ -144,6 +144,7 @@ impl Monitor for C17 {
             Tier::Quick => 30_000,
             Tier::Thorough => 300_000,
         };
+        v.extend(split_chunks("bait", seed_offset(seed, "C17b", 400_000), n, 400_000, 150));
         for k in ["superchip", "ram3e", "ram3ep"] {
             v.extend(split_chunks(k, seed_offset(seed, &format!("C17{}", k), 300_000), n, 300_000, 150));
         }
@@ -152,6 +153,28 @@ impl Monitor for C17 {
     fn run_case(&self, kind: &str, idx: u64) -> CaseResult {
         match kind {
             "pin" => pins::check_pin("C17", &c17_pins()[idx as usize], &[0, 1]),
+            "bait" => {
+                // the optimiser-bait profile with its scalars and its array in cartridge RAM: what
+                // the peephole pass knows about a cell must survive the two addresses of the cell
+                let mut p = crate::bait::bait_program(idx);
+                if let Some(why) = crate::mon_c01::bait_not_judgeable(&p) {
+                    return CaseResult::new(why, idx);
+                }
+                let scheme3e = idx % 3 != 0;
+                for v in p.vars.iter_mut().take(12) {
+                    // (the array stays in zero page: the bait programs reach it through a pointer,
+                    // the recorded family pointer_into_split_port_ram)
+                    if matches!(v.kind, VarKind::Scalar(_)) && v.name != "n" {
+                        v.mem = if scheme3e { MemClass::Bank(1) } else { MemClass::Superchip };
+                    }
+                }
+                let defs: &[&str] = match idx % 3 {
+                    0 => &[],
+                    1 => &["__3E__"],
+                    _ => &["__3E_PLUS__"],
+                };
+                judge(kind, idx, &p, defs, "C17b")
+            }
             "superchip" => judge(kind, idx, &gen_program("split", idx, &cfg_split(false)), &[], "C17s"),
             "ram3e" => judge(kind, idx, &gen_program("split3e", idx, &cfg_split(true)), &["__3E__"], "C17e"),
             _ => judge(kind, idx, &gen_program("split3ep", idx, &cfg_split(true)), &["__3E_PLUS__"], "C17p"),
